@@ -23,7 +23,8 @@ def close(ifs):
 
 
 def play(spec):
-    shape, steps = spec
+    shape, steps = spec[:2]
+    qseed = spec[2] if len(spec) > 2 else None      # order in which classes are queried (= order their specifications are first built)
     ifs = common.build_interfaces(shape)
     classes = [type(common.uname('K'), (object,), {})]
     objs = []
@@ -44,7 +45,11 @@ def play(spec):
 
     def check(tag):
         bad = []
-        for c in classes:
+        order = list(classes)
+        if qseed is not None:
+            import random
+            random.Random(qseed * 31 + len(classes)).shuffle(order)
+        for c in order:
             got = {id(i): i for i in implementedBy(c).flattened()}
             L, H = impl(c, lo), impl(c, hi)
             if not (set(L) <= set(got) <= set(H)):
@@ -162,6 +167,37 @@ def random_spec(rnd):
     return (shape, steps)
 
 
+def dag_spec(rnd):
+    """a layered class DAG built first (children of one root class, classes joining some of them, classes joining a
+    join with a shallower class: several paths of different length to the root), specifications first computed in a
+    random order, then declarations that add to / narrow the classes near the top"""
+    n = rnd.randint(2, 3)
+    shape = common.random_shape(rnd, n, 1)
+    steps = [('ci', 0, (rnd.randrange(6),), 0)]
+    layer1 = list(range(1, rnd.randint(3, 4) + 1))
+    for k in layer1:
+        steps.append(('sub', 0, (0,), 0))
+    nxt = layer1[-1] + 1
+    layer2 = []
+    for _ in range(rnd.randint(1, 2)):
+        steps.append(('sub', 0, tuple(rnd.sample(layer1, rnd.randint(1, 2))), 0))
+        layer2.append(nxt)
+        nxt += 1
+    for _ in range(rnd.randint(1, 2)):
+        a = rnd.choice(layer2)
+        b = rnd.choice(layer1 + layer2)
+        steps.append(('sub', 0, (a, b) if rnd.random() < 0.7 else (b, a), 0))
+        nxt += 1
+    if rnd.random() < 0.4:
+        steps.insert(rnd.randint(2, len(steps)), ('ci', rnd.randrange(1, 4), (rnd.randrange(6),), 0))
+    for _ in range(rnd.randint(1, 2)):
+        steps.append((rnd.choice(['cio', 'cio', 'implonly', 'ci', 'cif']), rnd.choice([0, 0, 0, 1]), (rnd.randrange(6),), 0))
+        if rnd.random() < 0.25:
+            steps.append(('inst', rnd.randrange(nxt), (), 0))
+            steps.append((rnd.choice(['dp', 'ap']), 0, (rnd.randrange(6),), 0))
+    return (shape, tuple(steps), rnd.randrange(1000))
+
+
 def replay(spec):
     bad, _ = play(spec)
     for sig, what, known in bad[:5]:
@@ -170,7 +206,7 @@ def replay(spec):
 
 
 def run(ctx):
-    ctx.rule = ('random histories of <=9 steps over {subclass creation (multiple inheritance), instance creation, '
+    ctx.rule = ('(every third: a layered class DAG of 5..9 classes with paths of different length to one root built first, specifications first computed in a random order, then declarations near the top) random histories of <=9 steps over {subclass creation (multiple inheritance), instance creation, '
                 'classImplements, classImplementsOnly, classImplementsFirst, implementer, implementer_only, directlyProvides, '
                 'alsoProvides, noLongerProvides, queries} on an interface DAG <=3; after every step implementedBy/providedBy and '
                 'I.implementedBy/I.providedBy of every class and instance checked against the two-sided ghost-history bounds; '
@@ -195,7 +231,7 @@ def run(ctx):
     for t in range(trials):
         if ctx.out_of_time() or ctx.too_many():
             return
-        spec = random_spec(ctx.rnd)
+        spec = random_spec(ctx.rnd) if t % 3 else dag_spec(ctx.rnd)
         bad, n = play(spec)
         ctx.evaluations += n
         ctx.distinct.add(spec)
